@@ -78,6 +78,32 @@ func runDead(rc *core.RunCtx) {
 	}
 	simrt.Recv(env.E.Poison(actor.NewPID("local", "act/gone")).Done())
 	simrt.WaitQuiet(time.Hour)
+	if g.Bool(0.25) {
+		// a repeated send (Engine.SendRepeat) whose target stops while the
+		// repeater keeps ticking: the ticks after the stop are undeliverable too
+		tgt := env.E.SpawnFunc(func(*actor.Context) {}, "rep", actor.WithID("t"))
+		tick := plainMsg{-1, "tick"}
+		rep := env.E.SendRepeat(tgt, tick, time.Millisecond)
+		simrt.WaitQuiet(3 * time.Millisecond)
+		simrt.Recv(env.E.Poison(tgt).Done())
+		count := func() int {
+			n := 0
+			for _, e := range live[0].Events {
+				if v, ok := e.Ev.(actor.DeadLetterEvent); ok && v.Message == any(tick) {
+					n++
+				}
+			}
+			return n
+		}
+		before := count()
+		simrt.WaitQuiet(6 * time.Millisecond)
+		rep.Stop()
+		simrt.WaitQuiet(time.Hour)
+		rc.Scen("SendRepeat every 1ms to rep/t, which is poisoned after 3ms; the repeater runs 6ms longer")
+		if n := count() - before; n < 3 {
+			rc.Violate2(own, "repeated-send-to-stopped-actor-not-dead-lettered", "the repeater ticked every millisecond for 6 ms after its target had stopped; monitor %s saw %d DeadLetterEvents for those ticks", live[0].Name, n)
+		}
+	}
 	baseline := map[*Monitor]int{}
 	for _, m := range live {
 		baseline[m] = len(m.Events)
@@ -185,6 +211,34 @@ func runDead(rc *core.RunCtx) {
 			})
 		}
 	}
+	// Stop/Poison of PIDs nobody is registered under (the pill is the
+	// undeliverable message), while other tasks keep writing to the registry
+	nUnknownStops, unknownDone := 0, 0
+	if g.Bool(0.4) {
+		nUnknownStops = g.Range(1, 3)
+		rc.Scen("%d Stop/Poison calls on unregistered PIDs ghost/s*, racing a task that spawns and stops actors", nUnknownStops)
+		for i := 0; i < nUnknownStops; i++ {
+			tgt := actor.NewPID("local", fmt.Sprintf("ghost/s%d", i%2))
+			poison := g.Bool(0.5)
+			simrt.Go(fmt.Sprintf("stop-unknown%d", i), func() {
+				for k := simrt.IntN(6); k > 0; k-- {
+					simrt.Yield(simrt.OpUser)
+				}
+				if poison {
+					simrt.Recv(env.E.Poison(tgt).Done())
+				} else {
+					simrt.Recv(env.E.Stop(tgt).Done())
+				}
+				unknownDone++
+			})
+		}
+		simrt.Go("registry-churn", func() {
+			for j := 0; j < 3; j++ {
+				pid := env.E.SpawnFunc(func(*actor.Context) {}, "churn", actor.WithID(fmt.Sprint(j)))
+				simrt.Recv(env.E.Poison(pid).Done())
+			}
+		})
+	}
 	finished := 0
 	for c := range scripts {
 		c := c
@@ -203,6 +257,23 @@ func runDead(rc *core.RunCtx) {
 	simrt.WaitQuiet(time.Hour)
 	if finished != nclients {
 		rc.Violate2(own,"send-blocked", "%d of %d sender tasks finished; blocked: %v", finished, nclients, simrt.BlockedTasks())
+	}
+	if unknownDone != nUnknownStops {
+		rc.Violate2(own, "stop-of-unknown-pid-blocked", "%d of %d Stop/Poison calls on unregistered PIDs returned a context that became done; blocked: %v", unknownDone, nUnknownStops, simrt.BlockedTasks())
+		return
+	}
+	if nUnknownStops > 0 {
+		for _, m := range live {
+			n := 0
+			for _, e := range m.Events[baseline[m]:] {
+				if v, ok := e.Ev.(actor.DeadLetterEvent); ok && v.Target != nil && strings.HasPrefix(v.Target.ID, "ghost/s") && fmt.Sprintf("%T", v.Message) == "actor.poisonPill" {
+					n++
+				}
+			}
+			if n != nUnknownStops {
+				rc.Violate2(own, "dead-letter-count/stop-of-unknown-pid", "%d Stop/Poison calls on unregistered PIDs, monitor %s saw %d DeadLetterEvents carrying their pills", nUnknownStops, m.Name, n)
+			}
+		}
 	}
 	if stoppersDone != nstoppers {
 		rc.Block("%d of %d stop callers returned (C07)", stoppersDone, nstoppers)
